@@ -15,14 +15,16 @@ BASE = {
     "Keys": "<- c_Keys1", "KVals": "<- c_KVals2", "Names": "<- c_Names1", "Ids": "<- c_Ids2", "Vecs": "<- c_Vecs2",
     "MKeys": "<- c_MKeys1", "MVals": "<- c_MVals2", "Cfgs": "<- c_CfgsA", "Maints": "<- c_Maints1", "ALs": "<- c_ALs1",
     "Targets": "<- c_Targets", "GNodes": "<- c_Empty", "Rels": "<- c_Empty", "Ws": "<- c_Empty", "Ps": "<- c_Empty",
-    "GName": '"ix"', "Devs": "<- c_Empty", "MaxFile": 3, "MaxCtr": 3, "MaxAcc": 1, "MaxVer": 2, "MaxOps": 5, "MaxRej": 2,
+    "GName": '"ix"', "CoreVacuum": "FALSE", "Devs": "<- c_Empty", "MaxFile": 3, "MaxCtr": 3, "MaxAcc": 1, "MaxVer": 2, "MaxOps": 5, "MaxRej": 2,
 }
 
 GRAPH = dict(BASE, **{
-    "Keys": "<- c_Empty", "KVals": "<- c_Empty", "Cfgs": "<- c_CfgsB", "Maints": "<- c_Empty", "ALs": "<- c_Empty",
+    "Keys": "<- c_Empty", "KVals": "<- c_Empty", "Cfgs": "<- c_CfgsB", "Maints": "<- c_Maints2", "ALs": "<- c_Empty",
     "Targets": "<- c_Empty", "MVals": "<- c_MVals1", "Vecs": "<- c_Vecs2",
     "GNodes": "<- c_GNodes3", "Rels": "<- c_Rels1", "Ws": "<- c_Ws2", "Ps": "<- c_Ps2", "MaxFile": 4, "MaxOps": 5,
 })
+# smaller graph universe for exhaustive runs of the quick tier
+GRAPH_Q = dict(GRAPH, **{"GNodes": "<- c_GNodes2", "Ps": "<- c_Ps1", "Ids": "<- c_Ids1"})
 
 INVS = ["Inv_CleanRestart", "Inv_RestartIdempotent", "Inv_IdMaps", "Inv_ListedIsReadable", "Inv_FwdRevAgree", "Inv_OneActive"]
 PROPS = ["Prop_RejectedNoChange", "Prop_MaintenanceInvisible", "Prop_ReopenIdentity"]
@@ -32,7 +34,7 @@ def profile_for(consts, variant=0, dim=3):
     """Harness-side universe matching the constant sets of the model profile."""
     sets = {
         "c_Empty": [], "c_Keys1": ["k1"], "c_Names1": ["ix"], "c_Names2": ["ix", "iy"], "c_Ids2": ["a", "b"],
-        "c_Ids3": ["a", "b", "c"], "c_MKeys1": ["k"], "c_GNodes3": ["a", "b", "g"], "c_Rels1": ["r"], "c_Rels2": ["r", "q"],
+        "c_Ids3": ["a", "b", "c"], "c_Ids1": ["a"], "c_MKeys1": ["k"], "c_GNodes3": ["a", "b", "g"], "c_GNodes2": ["a", "g"], "c_Rels1": ["r"], "c_Rels2": ["r", "q"],
     }
     g = lambda k: sets[consts[k].replace("<- ", "")]
     return {"keys": g("Keys"), "names": g("Names"), "ids": g("Ids"), "mkeys": g("MKeys"), "gnodes": g("GNodes"),
@@ -85,13 +87,26 @@ OWNER = {
 }
 
 
+def graph_only(div):
+    d = div.get("diff") or []
+    return bool(d) and all(x.startswith("obs.g") for x in d)
+
+
 def owner_of(div, beh):
+    """Which property a divergence belongs to (one defect is reported under one id)."""
     kind = div["kind"]
     op = div.get("op") or {}
+    name = op.get("op")
+    if graph_only(div):
+        deleted_before = beh and any(s["op"].get("op") == "VDelete" and s["op"].get("res") == "ok"
+                                     for s in beh["steps"][: div.get("step", 0) + 1])
+        if name == "VDelete" or (deleted_before and name in ("Reopen",)):
+            return "C12"
+        return "C10"
     if kind in OWNER:
         return OWNER[kind]
     if kind == "model_mismatch":
-        if op.get("op") == "Reopen":
+        if name == "Reopen":
             return "C01"
         if op.get("res") == "err":
             return "C05"
@@ -138,13 +153,25 @@ def judge(chk, prop, consts, behaviours, results):
                                      "behaviour": beh, "divergence": div})
 
 
+GRAPH_OPS = ("VLink", "VUnlink", "GraphVacuum", "GraphVacuumAt")
+
+
 def nontrivial(prop, ops):
     names = [o.get("op") for o in ops]
     if prop == "C01":
         return "Reopen" in names and len(names) >= 2
     if prop == "C05":
         return any(o.get("res") == "err" for o in ops)
+    if prop == "C10":
+        return sum(1 for n in names if n in GRAPH_OPS) >= 2
+    if prop == "C12":
+        return any(o.get("op") == "VDelete" and o.get("res") == "ok" for o in ops) and "VLink" in names
     return len(names) >= 2
+
+
+RULES = {"C01": "contains a Reopen after at least one write", "C05": "contains a rejected call",
+         "C04": "at least two operations", "C10": "at least two link/unlink/graph-vacuum operations",
+         "C12": "a successful VDelete of a node in a graph that has at least one link"}
 
 
 def run(prop, tier):
@@ -153,35 +180,54 @@ def run(prop, tier):
     quick = tier == "quick"
     base = dict(BASE)
     graph = dict(GRAPH)
-    # 1. design level: TLC on the sequential engine model
-    if quick:
-        model_check(chk, "MC_Kektor_base", dict(base, MaxOps=4, MaxFile=3), timeout=600)
-    else:
-        model_check(chk, "MC_Kektor_base", dict(base, MaxOps=5, MaxFile=3), timeout=1800)
-        model_check(chk, "MC_Kektor_graph", dict(graph, MaxOps=4), timeout=1800)
-    # 2. corpus: BFS state cover (short) + random walks (long)
-    cb = corpus(chk, "MC_Kektor_corpus", dict(base, MaxOps=3 if quick else 4), workers=4)
-    cs = corpus(chk, "MC_Kektor_walks", dict(base, MaxOps=12, MaxFile=6, MaxCtr=4), simulate=150 if quick else 1500, depth=12, workers=1)
+    use_base = prop in ("C01", "C04", "C05")
+    use_graph = prop in ("C01", "C10", "C12")
     need = lambda ops: nontrivial(prop, ops)
-    b1, n1 = vlib.behaviours_from_corpus(cb, max_behaviours=250 if quick else 6000, rng=rng, need=need)
-    b2, n2 = vlib.behaviours_from_corpus(cs, max_behaviours=150 if quick else 1500, rng=rng, need=need)
-    for i, b in enumerate(b2):
-        b["id"] = "w%d" % i
-    behaviours = b1 + b2
-    chk.cov["distinct_nontrivial"] = len(behaviours)
+    plans = []   # (constants, behaviours)
+    # 1. design level: TLC on the sequential engine model;  2. corpus: BFS state cover + random walks
+    if use_base:
+        model_check(chk, "MC_Kektor_base", dict(base, MaxOps=4 if quick else 5), timeout=600 if quick else 1800)
+        cb = corpus(chk, "MC_Kektor_base_corpus", dict(base, MaxOps=3 if quick else 4), workers=4)
+        cs = corpus(chk, "MC_Kektor_base_walks", dict(base, MaxOps=12, MaxFile=6, MaxCtr=4, MaxRej=2),
+                    simulate=150 if quick else 1500, depth=12, workers=1)
+        b1, _ = vlib.behaviours_from_corpus(cb, max_behaviours=(250 if prop != "C01" or not use_graph else 150) if quick else 6000, rng=rng, need=need)
+        b2, _ = vlib.behaviours_from_corpus(cs, max_behaviours=150 if quick else 1500, rng=rng, need=need)
+        for i, b in enumerate(b2):
+            b["id"] = "w%d" % i
+        plans.append((base, b1 + b2))
+    if use_graph:
+        if quick:
+            model_check(chk, "MC_Kektor_graph", dict(GRAPH_Q, MaxOps=3), timeout=900)
+        else:
+            model_check(chk, "MC_Kektor_graph_small", dict(GRAPH_Q, MaxOps=4), timeout=3000)
+            model_check(chk, "MC_Kektor_graph", dict(graph, MaxOps=3), timeout=3000)
+        cb = corpus(chk, "MC_Kektor_graph_corpus", dict(graph, MaxOps=2 if quick else 3), workers=4)
+        cs = corpus(chk, "MC_Kektor_graph_walks", dict(graph, MaxOps=12, MaxFile=8, MaxCtr=4, MaxRej=1, MaxVer=3),
+                    simulate=200 if quick else 2000, depth=12, workers=1)
+        b1, _ = vlib.behaviours_from_corpus(cb, max_behaviours=150 if quick else 5000, rng=rng, need=need)
+        b2, _ = vlib.behaviours_from_corpus(cs, max_behaviours=150 if quick else 2000, rng=rng, need=need)
+        for i, b in enumerate(b1):
+            b["id"] = "g%d" % i
+        for i, b in enumerate(b2):
+            b["id"] = "gw%d" % i
+        plans.append((graph, b1 + b2))
+    total = sum(len(b) for _, b in plans)
+    chk.cov["distinct_nontrivial"] = total
     chk.cov["rule"] = ("behaviours = leaves of the prefix tree of TLC's corpus (BFS: one shortest history per reachable state; "
                        "simulation: random walks), kept when non-trivial for %s (%s); every behaviour is executed on the real engine "
-                       "with the full projection compared after every step" % (prop, {
-                           "C01": "contains a Reopen after at least one write",
-                           "C05": "contains a rejected call", "C04": "at least two operations"}[prop]))
-    chk.cov["samples"] = [[s["op"] for s in b["steps"]] for b in behaviours[:3]]
+                       "with the full projection compared after every step" % (prop, RULES[prop]))
+    chk.cov["samples"] = [[s["op"] for s in b["steps"]] for _, bs in plans for b in bs[:2]]
+    if total == 0:
+        chk.infra.append("no non-trivial behaviour in the corpus")
     # 3. binding: replay on the real engine
     variants = (vlib.seed() % 3,) if quick else (0, 1, 2)
-    results = replay(chk, base, behaviours, variants=variants)
-    judge(chk, prop, base, behaviours, results)
+    for consts, behaviours in plans:
+        results = replay(chk, consts, behaviours, variants=variants)
+        judge(chk, prop, consts, behaviours, results)
     chk.assumptions += [
-        "constants of the model are small (2 ids, 2 vectors, 1 metadata key, 1 index, 1 KV key); larger data only through the refinement (dimension, value types)",
+        "constants of the model are small (2 ids, 2 vectors, 1 metadata key, 1 index, 1 KV key; graph: 3 nodes, 1 relation, 2 weights, 2 property maps); larger data only through the refinement (dimension, value types)",
         "background maintenance/auto-save timers are disabled during replay; maintenance runs only where the behaviour asks for it",
+        "edge timestamps are compared up to order (rank), never as absolute wall-clock values",
     ]
     return chk.finish()
 
